@@ -794,6 +794,7 @@ Result run()
   size_t planPos = 0;
   int last = -1;
   int extWait = 0;
+  const bool stepLog = getenv("VF_STEPLOG") != nullptr; // debugging aid: one line per scheduling decision on stderr
   for (int step = 0;; ++step)
   {
     if (!waitQuiescent(G->opt.watchdogMs))
@@ -1030,6 +1031,7 @@ Result run()
     }
     s.enabled = normal;
     for (int x : lowDue) s.enabled.push_back(x);
+    if (stepLog) fprintf(stderr, "[step %d] %s/%s%s\n", step, s.thread.c_str(), s.op.c_str(), fromPlan ? " (plan)" : "");
     res.steps.push_back(std::move(s));
     last = pick;
     grant(G->th[pick].get(), kind);
